@@ -62,11 +62,16 @@ def applyEach2 (op : SI → SI → R SI) (as bs : List SI) : R (List SI) :=
 
 def applyEach1 (op : SI → R SI) (as : List SI) : R (List SI) := as.mapM op
 
+/-- `__init__` runs `_update_bits` on every member: a non-empty set takes the width of its members -/
+def setBits (bits : Nat) : List SI → Nat
+  | [] => bits
+  | s :: _ => s.bits
+
 /-- the result set of a lifted operation: de-duplicate, reorder as recorded, `normalize` -/
 def finishSet (bits : Nat) (results : List SI) (order : List Nat) : R Val :=
   match permute (dedupe results) order with
   | none => throw .assertion
-  | some l => DSIS.normalize { bits := bits, sis := l }
+  | some l => DSIS.normalize { bits := setBits bits l, sis := l }
 
 def DSIS.lift2 (op : SI → SI → R SI) (a : DSIS) (bs : List SI) (order : List Nat) : R Val := do
   finishSet a.bits (← applyEach2 op a.sis bs) order
